@@ -6,6 +6,62 @@ and evaluates a semantic necessary condition on it: dominance / all-paths on the
 `inline` (temporaries, flag variables and tuple unpacking are transparent), arguments through `bind_args`, sizes and
 offsets as numbers / polynomials over the scan variable.  When the subject cannot be located any more the obligation is
 `undecided`; a located subject that fails its condition is a violation.
+
+Technique
+---------
+(numbers = ALLOWED devices of RULES_GUIDE.md "What counts as *static* here"; nothing of /repo is interpreted on data chosen
+by the checker: no sample inputs, no enumeration of numeric inputs, no loop unrolling, no regex / parser runs)
+
+R1  1 (stores into the attributes, resolved callees, constructor arguments through the class field list), 2 (branch-edge
+    atoms in negation normal form, dominance of the checksum-equality edge, "every path from the store to a yield passes
+    the edge or a reset to None", exactly-one-yield per cycle as CFG reachability avoiding the yields / the loop header),
+    3 (stored value and compared value as terms after substituting single-definition temporaries, multi-definition result
+    variables and constant tuple projections followed per definition; the equality `<stored> == payload_checksum(V) + 1`
+    decided in polynomial normal form over the atoms `<g>.checksum` and `payload_checksum(V)`; unmasking as an xor chain
+    (base, [keys]) compared structurally), 6 (the single-byte key constant).
+    Lemmas: [xor-len], [xor-keys-commute].
+R2  1 (constructions of BeaconConfig from `<candidate>.unmasked_beacon_config`, the for loop binding the candidate,
+    resolved iterator), 2 (truthiness atom on an edge dominating the construction), 3 (reaching definitions of the result
+    name at the `guardrails` store; conditions of a filtering comprehension / `filter(lambda ..)` renamed to the loop
+    variable), 5 (the finite set of spellings of "truthy": `x`, `bool(x)`, `x is not None`, `x != b""`, `len(x) > 0` ...).
+R3  6 (GuardOption members and the marker table compared completely with the reference tables; the reference markers are
+    the checker's own serialisation of (option, type, length) by the C definition *parsed* from the source), 1/3 (checksum
+    argument of the constructor followed through copies to its decoding call; `utils.unpack` / `int.from_bytes`
+    arguments through bind_args), 2 (the option test dominates the decoding), 5 (the option is compared with the enum
+    member, its value or its name - vocabulary of the parsed enum).
+R4  6 (patch-size constants, marker table, integer expressions folded over module constants incl. `len` of a constant
+    table element), 1 (stream operations on the file parameter, constructor arguments), 2 (which seek/read can be the last
+    stream operation before a read = reachability avoiding the other operations; marker-test edge dominates the report;
+    one increment on every cycle, none between the window seek and the report), 3 (marker value as xor chain of two
+    slices of one read; offsets as polynomials over the scan variable, compared in normal form), 4 (conditions
+    dominating the report as a half-line of the scan variable: linear inequality -> bound, compared with the first
+    admissible offset; the scan variable's updates as "+1" in polynomial form - the loop body is looked at once).
+    Lemmas: [xor-len], [xor-keys-commute], [reversal], [linear-bound].
+R5  1 (the variable bound to grouper's `n`, reads of the candidate stream, most_common calls), 3 (that variable followed to
+    the for loop that binds it; the checksum's per-byte term with the accumulator symbolic - the loop body / generator
+    element is analysed once - in polynomial normal form over the atoms BYTE and IMOD<k>), 6 (range arguments, read sizes,
+    modulus, ranked count folded; first / last / number of values of the constant `range` by closed form, not by
+    iterating it; a constant weight table compared completely with the arithmetic progression T[0]+j).
+    Lemmas: [byte-mask], [progression-table], [mod-accumulate], [range-closed-form], [enumerate-index],
+    assumption [default-buffer-size].
+R6  engine: effects.check_escape (1, 2, 4: escape analysis with interval facts, trusted base of C08) and
+    loops.analyse_loop (2: every cycle of the loop passes a progress statement).
+
+Lemmas (each used as a rewrite on terms, never checked by trying values)
+[xor-len]            len(utils.xor(data, key)) == len(data): the helper combines each byte of `data` with the cycled `key`
+                     (model of the package helper; its first operand is the base, the second the key).
+[xor-keys-commute]   xor(xor(b, k1), k2) == xor(xor(b, k2), k1): bytewise ^ is associative and commutative and both keys
+                     are cycled over len(b); keys do not commute with the base (lengths differ).
+[reversal]           X[::-1], bytes(X[::-1]) and bytes(reversed(X)) all denote the byte-reversal of X.
+[linear-bound]       for a > 0: a*x + c < 0 <=> x < -c/a (same for <=, >, >=); multiplying by -1 mirrors the operator.
+[byte-mask]          for an element b of a bytes object 0 <= b < 256, hence b & 0xFF == b and int(b) == b.
+[progression-table]  if T is a constant tuple with T[j] == T[0] + j for all j, then T[i % len(T)] == i % len(T) + T[0],
+                     because 0 <= i % len(T) < len(T) for len(T) >= 1.
+[mod-accumulate]     ((a % M) + b) % M == (a + b) % M for M > 0: reducing in every step or once at the end gives the same sum.
+[range-closed-form]  range(a, b, s) with s > 0 has max(0, ceil((b - a) / s)) values, first a, last a + (len - 1) * s
+                     (CPython's own O(1) range arithmetic is used for this).
+[enumerate-index]    enumerate(data) / enumerate(data, 0) yields (i, data[i]) for i = 0 .. len(data) - 1.
+[default-buffer-size] io.DEFAULT_BUFFER_SIZE == 8192 (CPython constant; named assumption).
 """
 
 from __future__ import annotations
@@ -48,7 +104,18 @@ def run(ctx):
         "escape set and loop termination of the scan."
     )
     rep.not_decided = ["that recovery succeeds for every key/option combination (n-gram statistics)", "checksum collisions"]
-    rep.trusted_base = ["CPython ast", "networkx dominators", "C-definition parser", "escape-analysis trusted base (C08)"]
+    rep.trusted_base = [
+        "CPython ast", "networkx dominators", "C-definition parser", "escape-analysis trusted base (C08)",
+        "polynomial normal form (csverif.absint.SymPoly)",
+        "model of utils.xor: len(xor(data, key)) == len(data), key cycled; hence xor(xor(b, k1), k2) == xor(xor(b, k2), k1)",
+        "lemma: X[::-1], bytes(X[::-1]), bytes(reversed(X)) are the byte-reversal of X",
+        "lemma: a*x + c < 0 <=> x < -c/a for a > 0 (mirrored operator for a < 0)",
+        "lemma: b & 0xFF == b and int(b) == b for an element b of a bytes object (0 <= b < 256)",
+        "lemma: T[i % len(T)] == i % len(T) + T[0] for a constant tuple with T[j] == T[0] + j",
+        "lemma: ((a % M) + b) % M == (a + b) % M for M > 0 (reduce per step == reduce at the end)",
+        "lemma: enumerate(data[, 0]) yields (i, data[i]); first/last/length of a constant range by closed form",
+        "assumption: io.DEFAULT_BUFFER_SIZE == 8192",
+    ]
     mod = ctx.repo.module("guardrails")
     env = module_env(mod)
     r1(ctx)
